@@ -1,7 +1,7 @@
 (** C16 — refutation witnesses for the behaviour of the current code that violates the property,
     non-vacuity examples for the guarded theorems, and the gathered statements. *)
 From V Require Import Base.Util Gql.Ast Writer.Wop C16.Model C16.Spec
-  C16.ProofsTemplate C16.ProofsString C16.ProofsStrip C16.ProofsDoc C16.ProofsReindent.
+  C16.ProofsTemplate C16.ProofsString C16.ProofsStrip C16.ProofsDoc C16.ProofsReindent C16.SpecLex C16.LexGuard C16.ProofsGlue C16.ProofsLex1 C16.ProofsLex2 C16.ProofsLex3.
 Local Open Scope N_scope.
 
 (** ** the full statements (not provable for the current code: see the refutations) *)
@@ -214,3 +214,31 @@ Example reindent_example :
   /\ join_lf ([] :: indent_lines 2 rest) = [LF] ++ s "    desc" ++ [LF; LF] ++ s "    more" ++ [LF] ++ s "    "
   /\ block_string_value (join_lf ([] :: rest)) = s "desc" ++ [LF; LF] ++ s "more".
 Proof. vm_compute. auto. Qed.
+
+(** ** token level: non-vacuity and the need for the guard *)
+Definition ex_lx : tsdoc :=
+  [ TSType (TDScalar (Some (mkDesc pos0 (s "a `date` costs ${x}, or 1.5e3" ++ [9; 233; 128512]))) pos0 (ex_id "Date")
+       [mkDir pos0 (ex_id "specifiedBy") (Some (mkArgs pos0 [(ex_id "url", ex_str (s "https://x")); (ex_id "n", VFloat pos0 (s "-1.5e+3"))]))]
+       (mkKw (s "scalar") pos0));
+    TSType (TDObject None pos0 (ex_id "User") [ex_id "Node"; ex_id "on"] []
+       [mkFieldDef (Some (mkDesc pos0 (s "the id"))) (ex_id "id") None (TNonNull (TNamed (ex_id "ID"))) [];
+        mkFieldDef None (ex_id "posts")
+          (Some [mkInputVal None pos0 (ex_id "first") (TNamed (ex_id "Int")) (Some (VInt pos0 (s "10"))) [];
+                 mkInputVal None pos0 (ex_id "filter") (TNamed (ex_id "In")) (Some (VObject pos0 [(ex_id "a", VList pos0 [VBool pos0 true; VNull pos0]); (ex_id "b", VEnum pos0 (s "RED"))])) []])
+          (TList pos0 (TNamed (ex_id "Post"))) [mkDir pos0 (ex_id "deprecated") None]]
+       (mkKw (s "type") pos0));
+    TSType (TDUnion None pos0 (ex_id "U") [] [] (mkKw (s "union") pos0));
+    TSSchemaExt (mkSchemaExt pos0 [dir_a] []);
+    TSTypeExt (TEUnion pos0 (ex_id "U") [] [ex_id "User"]) ].
+
+Example tsdoc_lx_example :
+  tsdoc_lx ex_lx = true /\ (60 < length (tokens_of_tsdoc ex_lx))%nat
+  /\ gql_lex (just_run (print_tsdoc_ext ex_lx)) = Some (tokens_of_tsdoc ex_lx).
+Proof. vm_compute. repeat split. lia. Qed.
+
+(** outside the guard: the union extension without members is printed with an equals sign that is
+    not among the tokens of the document *)
+Example extend_union_tokens_refuted :
+  let d := [TSTypeExt (TEUnion pos0 (mkId (s "U") pos0) [dir_a] [])] in
+  tsdoc_lx d = false /\ lex (just_run (print_tsdoc_ext d)) = Some (tokens_of_tsdoc d ++ [TP 61]).
+Proof. vm_compute. split; reflexivity. Qed.
